@@ -25,6 +25,7 @@ for _v in ("OMP_NUM_THREADS", "OPENBLAS_NUM_THREADS", "MKL_NUM_THREADS"):  # the
     os.environ.setdefault(_v, "1")
 
 TOL = Fr(1, 10**7)  # the documented tolerance, hard-coded (the model reads constants.TOL through the tables)
+TWO_PI = Fr(2 * math.pi)  # the float the code compares the sector angle with, exactly
 MARGIN = Fr(1, 10**11)  # the oracle abstains closer than this to a tolerance threshold (float vs. exact)
 
 # exception classes the property allows for a rejection (creation errors, value / key / runtime errors and the
@@ -382,6 +383,19 @@ def impl_call(name: str, r: List[Fr], s: List[str], light: bool = False) -> str:
         )
         outs = {str(start): _outcome(lambda: cb.Elbow.chain(src, 1.0, [2, 0, 1], [0, 1, 0], 0.8, start)) for start in ((False,) if light else (False, True))}
         return _same(outs)
+    if name == "arcTheta":
+        from classy_blocks.items.edges.arcs.angle import arc_from_theta
+
+        return _outcome(lambda: arc_from_theta([0.0, 0.0, 0.0], [1.0, 0.5, 0.0], f[0], [0.0, 0.0, 1.0]))
+    if name == "edgeVertices":
+        from classy_blocks.construct.edges import Line
+        from classy_blocks.items.edges.line import LineEdge
+
+        ends = [Vertex([float(k), 0, 0], k) if ok == 1 else Point([float(k), 0, 0]) for k, ok in enumerate(i)]
+        outs = {"line": _outcome(lambda: LineEdge(ends[0], ends[1], Line()))}
+        if not light:
+            outs["factory-arc"] = _outcome(lambda: factory.create(ends[0], ends[1], cb.Arc([0.5, 0.2, 0])))
+        return _same(outs)
     raise ValueError("unknown call " + name)
 
 
@@ -693,6 +707,17 @@ def py_pre(name: str, r: List[Fr], s: List[str]) -> Tuple[Optional[bool], str]:
         return Fr(dist) >= TOL, "RotationLink.__init__:leader-on-the-rotation-axis"
     if name == "elbowChain":
         return i[0] == 1, "Elbow.chain:source-sketch-not-a-disk"
+    if name == "arcTheta":
+        a, lim = r[0], TWO_PI
+        if a == 0:
+            return False, "arc_from_theta:angle-zero"
+        if a <= -lim:
+            return False, "arc_from_theta:angle-not-above-minus-2pi"
+        return a < lim, "arc_from_theta:angle-not-below-2pi"
+    if name == "edgeVertices":
+        if i[0] != 1:
+            return False, "Edge.__init__:first-end-not-a-vertex"
+        return i[1] == 1, "Edge.__init__:second-end-not-a-vertex"
     raise ValueError("unknown call " + name)
 
 
@@ -866,6 +891,16 @@ def boundary_cases(nframes: int = len(FRAMES), pair_lo: int = -2, pair_hi: int =
                     out.append(call("rotationLink", leader + [_exact(fl(c)) for c in origin] + [Fr(c) for c in axis]))
     out.append(call("elbowChain", [0]))
     out.append(call("elbowChain", [1]))
+    # round 6b: the sector angle of an `Angle` edge (both signs of every value), the ends of an edge
+    eps = Fr(1, 10**9)
+    for a in (Fr(0), eps, Fr(1, 2), Fr(3), TWO_PI - eps, TWO_PI, TWO_PI + eps, Fr(7), Fr(13)):
+        for sign in (1, -1):
+            if a == 0 and sign == -1:
+                continue
+            out.append(call("arcTheta", [_exact(fl(sign * a)), TWO_PI]))
+    for v1 in (0, 1):
+        for v2 in (0, 1):
+            out.append(call("edgeVertices", [v1, v2]))
     return out
 
 
@@ -1132,7 +1167,12 @@ def random_cases(rng: random.Random, n: int) -> List[dict]:
         else:
             name = rng.choice(["faceAddEdge", "faceProjectEdge", "opAddSideEdge", "opProjectCorner", "opChop", "opUnchop",
                                "opProjectEdge", "blockAddEdge", "frameAddBeam", "faceRemoveEdges", "chain",
-                               "curveParam", "curveParam", "rotationLink", "rotationLink", "polylineShape"])  # fmt: skip
+                               "curveParam", "curveParam", "rotationLink", "rotationLink", "polylineShape", "arcTheta"])  # fmt: skip
+            if name == "arcTheta":
+                u = rng.random()
+                a = _exact(rng.uniform(-6.2, 6.2)) if u < 0.6 else _exact(rng.choice([-1, 1]) * (float(TWO_PI) + rng.choice([-1, 1]) * 10 ** rng.uniform(-9, 0.5))) if u < 0.9 else Fr(0)
+                out.append(call(name, [a, TWO_PI], stream="random"))
+                continue
             if name == "curveParam":
                 lo = Fr(rng.randint(-8, 8), 4)
                 hi = lo + Fr(rng.randint(0, 16), 4)
@@ -1365,7 +1405,7 @@ class C20(core.Check):
     props_module = "CBV.Props.C20"
     workers = 8
     rule = (
-        "call cases: one guarded constructor/mutator/function call of the catalogue (35 call kinds); the guard stream holds the "
+        "call cases: one guarded constructor/mutator/function call of the catalogue (37 call kinds); the guard stream holds the "
         "boundary inputs constructed from the guards as the translator reads them from the source now (constants -1/0/+1, "
         "members and neighbours of membership tests, deviations on both sides of every tolerance expression); the boundary stream has "
         "arguments on both sides of every boundary of every documented precondition (index -1/0/max/max+1 and further "
@@ -1395,7 +1435,7 @@ class C20(core.Check):
         "every covered entry point are regenerated from the source with `ast` on every run and proved to be the model's "
         "table (T_C20_guards_table*); evaluating the regenerated guards on the arguments of a call is proved to give the "
         "outcome of the model's `run`, class included, for every entry point (T_C20_guards_translated_*; "
-        "Frame.add_beam only `_partial`: pairs = EDGE_PAIRS as a table). Still checked, not proved: the rejections that "
+        "none partial). Still checked, not proved: the rejections that "
         "come from implicit checks below / between the guards (dict and list look-ups, numpy shape and division, NaN "
         "refused by scipy — spelled out in each theorem as the model's own checks), the meaning of the named atoms "
         "(`self.outer_radius`, `self.is_assembled`, `isinstance(…, Disk)`, `len(np.shape(points))`) and python's "
@@ -1511,6 +1551,8 @@ class C20(core.Check):
                 return f"{case['name']}{case['r']}{case['s']}: documented precondition: harness {ok}, model {parts[1]}"
             if len(model) > 1:  # the guards as regenerated from the source, evaluated by the model on the same arguments
                 g = model[1].split(" ")
+                if g[0] == "untranslatable":  # the translator could not read this entry point: reported by the table generation
+                    return None
                 if len(g) != 2 or not (g[0] == "accept" or g[0].startswith("reject:")):
                     return f"unparsable answer of c20.guards {model[1]!r}"
                 label = f"{case['name']}{case['r']}{case['s']}"
